@@ -14,6 +14,11 @@ type applyBody struct {
 	Name string
 	Fn   *ssa.Function
 	Loop *ArmLoop
+	// a dispatch loop in front of the real one: `for r.Next() { if Put||Delete { c.applyLocked(…, r); return } }`
+	// skips the leading operations of other types and hands the rest of the section to a helper
+	// whose loop processes the current operation and everything after it
+	Outer    *ArmLoop
+	OuterOps opset // the operation types that enter the helper; the others are skipped without effect
 }
 
 var kindOfType = map[string]string{
@@ -114,6 +119,7 @@ func applyBodies(r *Report) []*applyBody {
 		loops := FindArmLoops(r.P, b.Fn)
 		if len(loops) == 1 {
 			b.Loop = loops[0]
+			delegateLoop(r.P, b)
 		}
 	}
 	sortBodies(out)
@@ -147,6 +153,9 @@ type armRule struct {
 func (ar armRule) must(op int, what string, kinds ...string) bool {
 	key := fmt.Sprintf("%s/%s/must-%s", ar.b.Name, opNames[op], what)
 	ok := ar.b.Loop.Must(op, kinds...)
+	if ar.b.Outer != nil && !ar.b.OuterOps.has(op) {
+		ok = false // a leading operation of this type is skipped by the dispatch loop
+	}
 	pos := ar.p.Pos(ar.b.Fn.Pos())
 	if es := ar.b.Loop.May(op, kinds[0]); len(es) > 0 {
 		pos = ar.p.InstrPos(es[0].Ins)
@@ -814,4 +823,92 @@ func ruleMarkerArms(r *Report) {
 		}
 	})
 	h.Check(recount, "commitMarkers/recount", r.P.Pos(fn.Pos()), "count := popcount(fill) after the markers", "the row counter is not recomputed from the fill list after markers were applied")
+}
+
+// delegateLoop: b.Loop is a dispatch loop — its body has no effect of its own and, under some
+// operation types, calls a helper with the same reader and returns; the helper holds exactly one
+// arm loop that starts with the current operation (`for ok := true; ok; ok = r.Next()`). The
+// helper's loop becomes the body's loop.
+func delegateLoop(p *Prog, b *applyBody) {
+	outer := b.Loop
+
+	for _, es := range outer.Effects {
+		for _, e := range es {
+			switch e.Kind {
+			case "lock", "unlock":
+			default:
+				if !e.Inlined {
+					return // the loop does something itself
+				}
+			}
+		}
+	}
+	var site *ssa.Call
+	var inner *ArmLoop
+	// blocks reachable from the body entry under each operation type (the block that calls the
+	// helper and returns is not part of the cycle)
+	opsAt := map[*ssa.BasicBlock]opset{}
+	for op := 0; op <= opOther; op++ {
+		seen := map[*ssa.BasicBlock]bool{}
+		var dfs func(x *ssa.BasicBlock)
+		dfs = func(x *ssa.BasicBlock) {
+			if seen[x] || x == outer.Head {
+				return
+			}
+			seen[x] = true
+			opsAt[x] |= 1 << uint(op)
+			for _, s2 := range x.Succs {
+				if outer.feas[op][cfgEdge{x, s2}] {
+					dfs(s2)
+				}
+			}
+		}
+		if outer.entryOps.has(op) {
+			dfs(outer.BodyEntry)
+		}
+	}
+	for _, blk := range outer.Fn.Blocks {
+		if opsAt[blk] == 0 {
+			continue
+		}
+		for _, ins := range blk.Instrs {
+			c, ok := ins.(*ssa.Call)
+			if !ok {
+				continue
+			}
+			sc := c.Call.StaticCallee()
+			if sc == nil || !isHelper(sc) {
+				continue
+			}
+			passes := false
+			for _, a := range c.Call.Args {
+				if sameExpr(a, outer.Reader) {
+					passes = true
+				}
+			}
+			if !passes {
+				continue
+			}
+			ls := FindArmLoops(p, originOf(sc))
+			if len(ls) != 1 {
+				continue
+			}
+			if _, isPhi := ls[0].Head.Instrs[len(ls[0].Head.Instrs)-1].(*ssa.If).Cond.(*ssa.Phi); !isPhi {
+				continue // the helper's loop would skip the operation the reader stands on
+			}
+			if site != nil {
+				return
+			}
+			site, inner = c, ls[0]
+		}
+	}
+	if site == nil {
+		return
+	}
+	// after the helper the function returns (the helper consumed the rest of the section)
+	blk := site.Block()
+	if _, isRet := blk.Instrs[len(blk.Instrs)-1].(*ssa.Return); !isRet {
+		return
+	}
+	b.Outer, b.OuterOps, b.Loop = outer, opsAt[blk], inner
 }
